@@ -751,8 +751,117 @@ func init() {
 				if idx%64 == 7 {
 					return c14LongLoop(r)
 				}
+				if idx%64 == 15 || idx%64 == 47 {
+					return c14CallChain(r)
+				}
+				if idx%32 == 23 {
+					return c14ForEachOverwriteLater(r)
+				}
 				return c14Loop(r)
 			}
 		},
 	})
+}
+
+// a chain of n callables, each calling the next with its own arguments path (the call sits in the callable's operation
+// set or in a child action): every one runs with its arguments and all arguments are gone afterwards (Go side only)
+func c14CallChain(r *rand.Rand) Case {
+	n := []int{5, 12, 13, 21, 22, 23, 40, 90}[r.Intn(8)]
+	inSteps := r.Intn(2) == 0
+	d := anyToContainer(map[string]any{"other": "keep"})
+	lst := &evListener{}
+	ex := pipeline.New(pipeline.WithListener(lst), pipeline.WithData(d))
+	var fail []string
+	for i := 0; i < n; i++ {
+		spec := pipeline.ActionSpec{}
+		spec.Operations.Log = &pipeline.LogOp{Message: fmt.Sprintf("c%d sees {{ .a%d.v }}", i, i)}
+		if i+1 < n {
+			ap := fmt.Sprintf("a%d", i+1)
+			call := &pipeline.CallOp{Name: fmt.Sprintf("c%d", i+1), ArgsPath: &ap, Args: map[string]any{"v": fmt.Sprintf("v%d", i+1)}}
+			if inSteps {
+				child := pipeline.ActionSpec{}
+				child.Operations.Call = call
+				spec.Children = pipeline.ChildActions{"next": child}
+			} else {
+				spec.Operations.Call = call
+			}
+		}
+		if err := ex.Execute(&pipeline.DefineOp{Name: fmt.Sprintf("c%d", i), Action: spec}); err != nil {
+			fail = append(fail, fmt.Sprintf("define c%d: %v", i, err))
+		}
+	}
+	a0 := "a0"
+	var err error
+	if pn := guard(func() { err = ex.Execute(&pipeline.CallOp{Name: "c0", ArgsPath: &a0, Args: map[string]any{"v": "v0"}}) }); pn != "" {
+		fail = append(fail, "panic in a chain of calls: "+pn)
+	}
+	if err != nil {
+		fail = append(fail, fmt.Sprintf("a chain of %d calls failed: %v", n, err))
+	}
+	var logs, want []string
+	for _, e := range lst.evs {
+		if e.Kind == "L" {
+			logs = append(logs, e.Label)
+		}
+	}
+	for i := n - 1; i >= 0; i-- { // children run after the action's own operations; within an operation set the call comes before the log
+		want = append(want, fmt.Sprintf("c%d sees v%d", i, i))
+	}
+	if inSteps {
+		for i, j := 0, len(want)-1; i < j; i, j = i+1, j-1 {
+			want[i], want[j] = want[j], want[i]
+		}
+	}
+	if !reflect.DeepEqual(logs, want) {
+		fail = append(fail, fmt.Sprintf("a chain of %d calls logged %d lines (first %.3v), expected %d (first %.3v)", n, len(logs), logs, len(want), want))
+	}
+	if fin := nodeToAny(d); !reflect.DeepEqual(fin, any(map[string]any{"other": "keep"})) {
+		fail = append(fail, fmt.Sprintf("after a chain of %d calls the data holds %d members, expected only the one it started with", n, len(fin.(map[string]any))))
+	}
+	return Case{Kind: "call-chain", Desc: map[string]any{"n": n, "in_steps": inSteps}, Fail: fail, Nontrivial: true, Key: fmt.Sprint("chain", n, inSteps)}
+}
+
+// a forEach over a list query whose body overwrites an item of that list it has not reached yet: the body runs once per
+// item of the list the forEach started on (Go side only)
+func c14ForEachOverwriteLater(r *rand.Rand) Case {
+	n := 3 + r.Intn(4)
+	var items []any
+	want := ""
+	for i := 0; i < n; i++ {
+		items = append(items, fmt.Sprintf("i%d", i))
+		want += fmt.Sprintf("[i%d]", i)
+	}
+	k := 1 + r.Intn(n-1) // overwritten from the first iteration on
+	v := []string{"", "it"}[r.Intn(2)]
+	vr := "forEach"
+	if v != "" {
+		vr = v
+	}
+	see := pipeline.ActionSpec{ActionMeta: pipeline.ActionMeta{Order: 1}}
+	see.Operations.Template = &pipeline.TemplateOp{Template: "{{ .acc }}[{{ ." + vr + " }}]", Path: "acc"}
+	over := pipeline.ActionSpec{ActionMeta: pipeline.ActionMeta{Order: 2}}
+	over.Operations.Template = &pipeline.TemplateOp{Template: "done", Path: fmt.Sprintf("items[%d]", k)}
+	body := pipeline.ActionSpec{Children: pipeline.ChildActions{"see": see, "over": over}}
+	fe := &pipeline.ForEachOp{Query: &pipeline.ValOrRef{Val: "items"}, Action: body}
+	if v != "" {
+		fe.Variable = &v
+	}
+	d := anyToContainer(map[string]any{"items": items, "acc": "", "keep": 1})
+	var err error
+	var fail []string
+	if pn := guard(func() { err = pipeline.New(pipeline.WithData(d)).Execute(fe) }); pn != "" {
+		fail = append(fail, "panic: "+pn)
+	}
+	if err != nil {
+		fail = append(fail, fmt.Sprintf("forEach over a list query failed: %v", err))
+	}
+	fin, _ := nodeToAny(d).(map[string]any)
+	if fmt.Sprint(fin["acc"]) != want {
+		fail = append(fail, fmt.Sprintf("forEach over a list of %d whose body overwrites item %d: the body saw %v, expected %v", n, k, fin["acc"], want))
+	}
+	items[k] = "done"
+	if !reflect.DeepEqual(fin["items"], any(items)) || fin[vr] != nil || !reflect.DeepEqual(fin["keep"], 1) {
+		fail = append(fail, fmt.Sprintf("after the forEach the data is %v", fin))
+	}
+	return Case{Kind: "foreach-overwrite-later", Desc: map[string]any{"n": n, "k": k, "var": v, "acc": fin["acc"]}, Fail: fail, Nontrivial: true, Key: fmt.Sprint("fol", n, k, v)}
 }
